@@ -1,4 +1,5 @@
 import CoxeterVerif.Spec.MeshIO
+import CoxeterVerif.Vec
 /-!
   C20 — model of the writers of `coxeter/io.py` and of `Polyhedron.save`
   (`coxeter/shapes/polyhedron.py`), statement by statement.  Only the data types (`Str`, `Tok`,
@@ -22,6 +23,11 @@ import CoxeterVerif.Spec.MeshIO
     `to_html` re-parses the X3D file and serialises it inside `<body>`: ElementTree then resolves the
     `xsd:` prefix to its namespace URI, picks its registered prefix `xsi` for that URI and declares it
     on the root; this library behaviour is mirrored as observed (`x3dTree (reparsed := true)`).
+  * deepening round: `floatRepr` is `str(coord)` itself (CPython `format_float_short(x, 'r', 0, ADD_DOT_0)`, which
+    numpy's `float64.__str__` reproduces) as a function of the digits and decimal-point position that `dtoa` returns
+    (external); `stlNormal` is `np.cross(t[1]-t[0], t[2]-t[1])`; `ShapeH`/`Heap` + `exportH` is what the seven
+    writers and `save` do to the ARRAYS of the shape (`deepcopy`, the `centroid[i] -= m` loop of `to_stl`,
+    `cached_property edges` read by `to_off`).
 -/
 namespace MeshIO
 
@@ -213,6 +219,142 @@ def htmlTree (cls : Str) (m : Mesh) : Xml :=
      .node cs!"body" [] [] [x3dTree true cls m]]
 
 def toHtml (cls : Str) (m : Mesh) : Str := cs!"<!DOCTYPE html>" ++ (htmlTree cls m).render
+
+/-! ### `str(coord)` -/
+
+/-- ASCII digit -/
+def digitCh (d : Nat) : Char := d.digitChar
+/-- `memset(p, '0', n)` -/
+def zeros (n : Nat) : Str := List.replicate n '0'
+/-- `sprintf("%+.02d", exp)` without the sign -/
+def pad2 (n : Nat) : Str := if n < 10 then '0' :: dec n else dec n
+
+/-- `str(coord)` of a finite double: CPython `format_float_short(x, 'r', 0, Py_DTSF_ADD_DOT_0)`
+    (`float.__repr__`; numpy's `float64.__str__` prints the same).  `digits` (decimal digits, most significant
+    first) and `decpt` are what `_Py_dg_dtoa(x, mode 0)` returned: `|x| ≈ 0.d₁d₂…dₙ · 10^decpt`; `neg` its sign. -/
+def floatRepr (neg : Bool) (digits : List Nat) (decpt : Int) : Str :=
+  let sgn : Str := if neg then ['-'] else []
+  let ds : Str := digits.map digitCh
+  -- case 'r': if (decpt <= -4 || decpt > 16) use_exp = 1;
+  if decpt ≤ -4 ∨ decpt > 16 then
+    -- exp = decpt - 1; decpt = 1;  digits[0] '.' digits[1:]  (a trailing '.' is deleted)
+    let exp := decpt - 1
+    let mant : Str := match ds with
+      | [] => []
+      | [d] => [d]
+      | d :: r => d :: '.' :: r
+    sgn ++ mant ++ ['e'] ++ (if exp < 0 then ['-'] else ['+']) ++ pad2 exp.natAbs
+  else if decpt ≤ 0 then
+    -- "0." zeros(-decpt) digits
+    sgn ++ cs!"0." ++ zeros (-decpt).toNat ++ ds
+  else if decpt.toNat < ds.length then
+    sgn ++ ds.take decpt.toNat ++ ['.'] ++ ds.drop decpt.toNat
+  else
+    -- digits zeros(decpt - n) ".0"   (Py_DTSF_ADD_DOT_0)
+    sgn ++ ds ++ zeros (decpt.toNat - ds.length) ++ cs!".0"
+
+/-! ### the STL facet normal -/
+
+/-- `n = np.cross(t[1] - t[0], t[2] - t[1])` -/
+def stlNormal {α} [Scalar α] (t0 t1 t2 : V3 α) : V3 α := V3.cross (t1 - t0) (t2 - t1)
+
+/-- the normals of the fan triangles of one face, `vs` = `shape.vertices` -/
+def stlFaceNormals {α} [Scalar α] (vs : Nat → V3 α) (f : List Nat) : List (V3 α) :=
+  (fan f).map fun t => stlNormal (vs t.1) (vs t.2.1) (vs t.2.2)
+
+/-! ### what the writers do to the shape's arrays
+
+  numpy arrays are objects; the heap is the list of all arrays (identity = position).  `ShapeH` records which
+  arrays the attributes of a `Polyhedron` / `ConvexPolyhedron` hold. -/
+
+abbrev Heap (α : Type) := List (List α)
+
+structure ShapeH where
+  /-- `ConvexPolyhedron` (the `centroid` getter returns the cached `self._centroid` array itself) or `Polyhedron`
+      (the getter computes a fresh array on every access) -/
+  convex : Bool
+  /-- `self._vertices` (row major, 3 per vertex) -/
+  vertices : Nat
+  /-- `self._centroid` (`ConvexPolyhedron` only; unused otherwise) -/
+  centroid : Nat
+  /-- every other array attribute (`_equations`, `_simplices`, `_faces[k]`, `_neighbors[k]`, …) -/
+  others : List Nat
+  /-- `cached_property edges` already evaluated (`'edges' in self.__dict__`) -/
+  edgesCached : Bool
+deriving DecidableEq, Repr
+
+namespace Heap
+variable {α : Type}
+/-- contents of array `i` -/
+def get (h : Heap α) (i : Nat) : List α := h.getD i []
+/-- a new array object; returns its identity -/
+def alloc (h : Heap α) (a : List α) : Heap α × Nat := (h ++ [a], h.length)
+/-- `arr[k] = x` in place -/
+def setAt (h : Heap α) (i k : Nat) (x : α) : Heap α := h.set i ((h.get i).set k x)
+end Heap
+
+/-- one array attribute duplicated: (heap, identities of the duplicates so far) -/
+def copyArr {α} (st : Heap α × List Nat) (o : Nat) : Heap α × List Nat :=
+  ((st.1.alloc (st.1.get o)).1, st.2 ++ [(st.1.alloc (st.1.get o)).2])
+
+/-- `copy.deepcopy(shape)`: every array attribute is duplicated, the copy's attributes hold the duplicates -/
+def deepcopyH {α} (h : Heap α) (s : ShapeH) : Heap α × ShapeH :=
+  let hv := h.alloc (h.get s.vertices)
+  let hc := hv.1.alloc (hv.1.get s.centroid)
+  let ho := s.others.foldl copyArr (hc.1, [])
+  (ho.1, { s with vertices := hv.2, centroid := hc.2, others := ho.2 })
+
+/-- `copy.copy(shape)` (NOT what the code does — the variant of a seeded change, for the sensitivity lemma):
+    a new object whose attributes hold the SAME arrays -/
+def shallowcopyH {α} (h : Heap α) (s : ShapeH) : Heap α × ShapeH := (h, s)
+
+/-- `np.amin(a=shape.vertices, axis=0)` on the row-major contents -/
+def aminCols {α} [Scalar α] (vs : List α) : List α :=
+  let col (k : Nat) : List α := (List.range (vs.length / 3)).map fun r => vs.getD (3 * r + k) (Scalar.lit 0)
+  let mn (l : List α) : α := match l with
+    | [] => Scalar.lit 0
+    | a :: r => r.foldl (fun acc x => if x < acc then x else acc) a
+  [mn (col 0), mn (col 1), mn (col 2)]
+
+/-- the `centroid` property getter: the array object it returns.  `cen` is the centroid computation of
+    `Polyhedron.centroid` (external: irrelevant here). -/
+def centroidGetH {α} (cen : List α → List α) (h : Heap α) (s : ShapeH) : Heap α × Nat :=
+  if s.convex then (h, s.centroid) else h.alloc (cen (h.get s.vertices))
+
+/-- one round of `for i, m in enumerate(mins): if m < 0: shape.centroid[i] -= m` -/
+def shiftStep {α} [Scalar α] (cen : List α → List α) (shape : ShapeH) (h : Heap α) (mi : α × Nat) : Heap α :=
+  if mi.1 < Scalar.lit 0 then
+    let g := centroidGetH cen h shape
+    g.1.setAt g.2 mi.2 ((g.1.get g.2).getD mi.2 (Scalar.lit 0) - mi.1)
+  else h
+
+/-- `to_stl` up to `vs = shape.vertices`:
+    ```
+    shape = deepcopy(shape)
+    mins = np.amin(a=shape.vertices, axis=0)
+    for i, m in enumerate(mins):
+        if m < 0:
+            shape.centroid[i] -= m
+    vs = shape.vertices
+    ```
+    returns the heap afterwards and the contents of `vs` (what is then printed). `copy` is the copy function. -/
+def toStlPreH {α} [Scalar α] (copy : Heap α → ShapeH → Heap α × ShapeH) (cen : List α → List α)
+    (h : Heap α) (shape : ShapeH) : Heap α × List α :=
+  let cp := copy h shape
+  let mins := aminCols (cp.1.get cp.2.vertices)
+  let h' := mins.zipIdx.foldl (shiftStep cen cp.2) cp.1
+  (h', h'.get cp.2.vertices)
+
+/-- export in format `fmt` (0 OBJ, 1 OFF, 2 STL, 3 PLY, 4 VTK, 5 X3D, 6 HTML): the heap and the caller's shape
+    object afterwards, and the vertex contents the writer prints.  `to_off` evaluates `shape.edges`
+    (a `cached_property`: the result is stored in the instance dict); all others only read `vertices`, `faces`,
+    `__class__`. -/
+def exportH {α} [Scalar α] (cen : List α → List α) (fmt : Nat) (h : Heap α) (shape : ShapeH) :
+    Heap α × ShapeH × List α :=
+  if fmt = 2 then
+    ((toStlPreH deepcopyH cen h shape).1, shape, (toStlPreH deepcopyH cen h shape).2)
+  else if fmt = 1 then (h, { shape with edgesCached := true }, h.get shape.vertices)
+  else (h, shape, h.get shape.vertices)
 
 /-! ### Polyhedron.save -/
 def save (filetype ver cls : Str) (nrm : V3T → V3T → V3T → V3T) (m : Mesh) : Except String Str :=
